@@ -420,6 +420,8 @@ def rkwargs(rng):
         kw["secondary_quote_char"] = rng.choice(["'", '"', "", None])
     if rng.random() < 0.2:
         kw["alias_quote_char"] = rng.choice(QUOTES)
+    if rng.random() < 0.1:
+        kw["query_alias_quote_char"] = rng.choice(QUOTES)
     for flag in ("with_alias", "with_namespace", "subquery", "as_keyword", "groupby_alias", "orderby_alias", "subcriterion"):
         if rng.random() < 0.22:
             kw[flag] = rng.random() < 0.6
@@ -487,6 +489,26 @@ def gen_case(rng, tier="quick", kind=None):
         case["obj"] = rddl(rng, nt)
     else:
         case["obj"] = rmisc(rng, nt, ns)
+    if kind == "select" and case["obj"][0] == "q" and rng.random() < 0.15:
+        # joins on WITH queries: the references are validated when the statement is rendered (with_() may come later,
+        # or never: then every rendering raises JoinException)
+        steps = case["obj"][2]
+        pos = 1
+        while pos < len(steps) and steps[pos][0].startswith(("from_", "join")):
+            pos += 1
+        for name in rng.sample(["w1", "w2", "cte"], rng.choice([1, 1, 2])):
+            case["tables"].append(["aliased", name, None])
+            k = len(case["tables"]) - 1
+            if rng.random() < 0.5:
+                steps.insert(pos, ["join_on", [["t", k], ["cmp", "==", ["f", "id", ["t", 0]], ["f", "id", ["t", k]]]]])
+            else:   # referenced from a criterion only
+                steps.append(["where", [["cmp", "==", ["f", "id", ["t", 0]], ["f", "id", ["t", k]]]]])
+                if len(case["tables"]) > 2 and isinstance(case["tables"][1], list) and case["tables"][1][0] == "table" \
+                        and not any(st[0].startswith("join") for st in steps):
+                    steps.insert(pos, ["join_on", [["t", 1], ["and", ["cmp", "==", ["f", "id", ["t", 0]], ["f", "id", ["t", 1]]],
+                                                                     ["cmp", "==", ["f", "a", ["t", 1]], ["f", "a", ["t", k]]]]]])
+            if rng.random() < 0.6:
+                steps.append(["with_", [["q", "Query", [["from_", [["t", 0]]], ["select", ["id", "a"]]], {}], name]])
     case["others"] = []
     if rng.random() < 0.5:
         case["others"].append(rng.choice([rfield(rng, nt), ["t", 0], rtable(rng, 0), 3, "abc", None, rselect_query(rng, nt, 0, 1, simple=True)]))
